@@ -37,7 +37,12 @@ def rotmat(angles_deg):
     return rz @ ry @ rx
 
 
-def lattice(seed, ground=False, n=5):
+# lattice with exactly axis-aligned, vertical and diagonal (dx == -dy, dx == dy) wire directions:
+# code that special-cases a direction component being zero or two components cancelling shows up here
+SYMG5 = [(0, 0, 0), (1.2, -1.2, 0), (-0.6, 0.6, 0.9), (0.6, 0.6, 0.9), (0, 0, 1.0)]
+
+
+def lattice(seed, ground=False, n=5, special=False):
     """lattice points in metres for the seed variant"""
     rot, s, f = variant(seed)
     lam = C_MININEC / f
@@ -45,9 +50,13 @@ def lattice(seed, ground=False, n=5):
         base = GND5 if n == 5 else GND7
         # over ground only a rotation about z keeps the plane
         R = rotmat((0, 0, rot[2]))
+        if special:
+            base, R = SYMG5, np.eye(3)
     else:
         base = BASE5 if n == 5 else BASE7
         R = rotmat(rot)
+        if special:
+            R = np.eye(3)
     P = [(R @ np.array(p, float)) * s * lam for p in base]
     if ground:
         for p in P:
@@ -236,13 +245,13 @@ def add_loads(m, loads):
 
 
 # ---------------------------------------------------------------- geometric pulse identity
+# (tolerance matching, never rounding: rounded keys straddle a boundary once in ~1e7 coordinates)
 def _rt(v, nd):
     return tuple(float(x) for x in (np.round(np.array(v, float), nd) + 0.0))
 
 
-def scale_nd(m):
-    """number of decimals to round coordinates to: 1e-5 of the shortest segment"""
-    return max(0, int(math.ceil(-math.log10(m.min_seglen * 1e-4))))
+def ptol(m):
+    return 1e-4 * m.min_seglen
 
 
 def orient(p):
@@ -251,52 +260,109 @@ def orient(p):
 
 
 def pulse_by_point(m):
-    nd = scale_nd(m)
-    d = {}
-    for p in m.pulses:
-        d.setdefault(_rt(p.point, nd), []).append(p)
-    return (d, nd)
+    return (np.array([np.array(p.point, float) for p in m.pulses]), m, ptol(m))
+
+
+def pulses_at(pm, at):
+    P, m, tol = pm
+    d = np.linalg.norm(P - np.array(at, float), axis=1)
+    return [m.pulses[i] for i in np.where(d < tol)[0]]
 
 
 def find_pulse(pm, at, ends=None):
-    d, nd = pm
-    c = d[_rt(at, nd)]
+    P, m, tol = pm
+    c = pulses_at(pm, at)
     if ends is None:
-        assert len(c) == 1, 'ambiguous pulse at %s' % (at,)
+        assert len(c) == 1, '%d pulses at %s' % (len(c), at)
         return c[0]
-    want = sorted([_rt(ends[0], nd), _rt(ends[1], nd)])
+    e = [np.array(x, float) for x in ends]
     for p in c:
-        if sorted([_rt(p.ends[0], nd), _rt(p.ends[1], nd)]) == want:
+        q = [np.array(x, float) for x in p.ends]
+        if (np.linalg.norm(q[0] - e[0]) < tol and np.linalg.norm(q[1] - e[1]) < tol) or \
+           (np.linalg.norm(q[0] - e[1]) < tol and np.linalg.norm(q[1] - e[0]) < tol):
             return p
     raise KeyError('no pulse at %s with ends %s' % (at, ends))
 
 
+class HC:
+    """conductor currents per real half-segment: rows (point, unit direction away from the point,
+    current flowing away from the point in that direction), pulses overlapping the same half summed"""
+
+    def __init__(self, P, U, I, tol):
+        self.P, self.U, self.I, self.tol = P, U, I, tol
+
+    def __len__(self):
+        return len(self.I)
+
+    def lookup(self, pt, u):
+        d = np.linalg.norm(self.P - np.array(pt, float), axis=1)
+        e = np.linalg.norm(self.U - np.array(u, float), axis=1)
+        k = np.where((d < self.tol) & (e < 1e-4))[0]
+        if len(k) != 1:
+            return None
+        return self.I[k[0]]
+
+    def transformed(self, R=None, t=None, s=1.0):
+        P, U = self.P, self.U
+        if R is not None:
+            P, U = P @ R.T, U @ R.T
+        if t is not None:
+            P = P + np.array(t, float)
+        P = P * s          # x -> s * (R x + t): scaling is applied last
+        return HC(P, U, self.I, self.tol * s)
+
+    def select(self, mask):
+        return HC(self.P[mask], self.U[mask], self.I[mask], self.tol)
+
+    def maxabs(self):
+        return float(np.max(np.abs(self.I))) if len(self.I) else 0.0
+
+
 def half_currents(m, current=None):
-    """conductor current per real half-segment.
-    key = (pulse point, unit direction away from it) -> current flowing away
-    from the point in that direction, summed over all pulses overlapping it"""
-    nd = scale_nd(m)
     cur = m.current if current is None else current
-    d = {}
+    tol = ptol(m)
+    P, U, I = [], [], []
     for p in m.pulses:
         pt = np.array(p.point, float)
         for h in (0, 1):
             if p.ground[h]:
                 continue
             v = np.array(p.ends[h], float) - pt
-            u = v / np.linalg.norm(v)
-            key = (_rt(pt, nd), _rt(u, 5))
-            I = cur[p.idx] * (1 if h == 1 else -1)
-            d[key] = d.get(key, 0) + I
-    return d
+            P.append(pt)
+            U.append(v / np.linalg.norm(v))
+            I.append(cur[p.idx] * (1 if h == 1 else -1))
+    P, U, I = np.array(P), np.array(U), np.array(I, complex)
+    n = len(I)
+    # merge identical halves (several pulses overlap the same end segment at k>=3 junctions)
+    keep, acc = [], []
+    used = np.zeros(n, bool)
+    for i in range(n):
+        if used[i]:
+            continue
+        same = (np.linalg.norm(P - P[i], axis=1) < tol) & (np.linalg.norm(U - U[i], axis=1) < 1e-4) & ~used
+        used |= same
+        keep.append(i)
+        acc.append(I[same].sum())
+    return HC(P[keep], U[keep], np.array(acc, complex), tol)
 
 
 def cmp_half_currents(h0, h1):
-    """max |difference| / max |current|; None if key sets differ"""
-    if set(h0) != set(h1):
+    """max |difference| / max |current| with a one-to-one geometric match; None if no such match"""
+    if len(h0) != len(h1):
         return None
-    mx = max(abs(v) for v in h0.values()) or 1.0
-    return max(abs(h0[k] - h1[k]) for k in h0) / mx
+    mx = h0.maxabs() or 1.0
+    tol = max(h0.tol, h1.tol)
+    w = 0.0
+    seen = set()
+    for i in range(len(h0)):
+        d = np.linalg.norm(h1.P - h0.P[i], axis=1)
+        e = np.linalg.norm(h1.U - h0.U[i], axis=1)
+        k = np.where((d < tol) & (e < 1e-4))[0]
+        if len(k) != 1 or k[0] in seen:
+            return None
+        seen.add(k[0])
+        w = max(w, abs(h0.I[i] - h1.I[k[0]]))
+    return w / mx
 
 
 def cond_tol(m, base=5e-4):
@@ -377,7 +443,7 @@ def domain(case, lam, ground=False, min_angle=40.0, sep_factor=2.0, joined_neigh
                 rise = math.degrees(math.asin(abs(dvec[2]) / np.linalg.norm(dvec)))
                 if rise < rise_deg + mg_a:
                     return 'rise'
-                gp.append(_rt(a if ga else b, 6))
+                gp.append(_rt(a if ga else b, 6))  # exact lattice points, rounding only normalises -0.0
             elif min(za, zb) < mg_d * l:
                 return 'low'
         if one_per_ground_point and len(gp) != len(set(gp)):
